@@ -32,7 +32,10 @@ RULE = ("case = random table (1..200 rows; positions up to 1e5; orientations inc
 TOLERANCES = {"parquet_angle_rad": 3e-6, "csv_extra_ulp": 4}
 MIN_DECIDED = {"quick": 3000, "thorough": 60000}
 
-ROUTES = ["file.csv", "file.txt", "file.pq", "file.parquet", "file.CSV", "csv", "parquet", "dataframe"]
+# file.PQ / file.Parquet: the format chosen for a mixed-case suffix is the library's business, but writer and reader
+# must choose the same one (round 7, C13-13)
+ROUTES = ["file.csv", "file.txt", "file.pq", "file.parquet", "file.CSV", "csv", "parquet", "dataframe", "file.PQ",
+          "file.Parquet"]
 
 
 def cases(tier, seed):
@@ -119,7 +122,7 @@ def run(case):
     p = case.params
     rng = gen.rng_for(p["iseed"], "c13")
     N, route, prec = p["N"], p["route"], p["precision"]
-    is_csv = route in ("file.csv", "file.txt", "file.CSV", "csv")
+    is_csv = route in ("file.csv", "file.txt", "file.CSV", "csv", "file.PQ", "file.Parquet")  # features safe for either format
     span = 1e5 if p["big"] else 300.0
     pos = rng.uniform(-span, span, size=(N, 3)).astype(np.float32)
     if rng.random() < 0.3:
@@ -138,8 +141,9 @@ def run(case):
             with open(path, "rb") as f:
                 head = f.read(4)
             want_parquet = route in ("file.pq", "file.parquet")
-            case.check((head == b"PAR1") == want_parquet, "to_file chose the wrong format for the suffix",
-                       suffix=route[4:], magic=repr(head))
+            if route not in ("file.PQ", "file.Parquet"):
+                case.check((head == b"PAR1") == want_parquet, "to_file chose the wrong format for the suffix",
+                           suffix=route[4:], magic=repr(head))
             back = Molecules.from_file(path)
             is_csv = head != b"PAR1"
             eff_prec = 4 if is_csv else None
